@@ -462,6 +462,63 @@ Section LFacts.
     - rewrite Hv, Hq, with_cvals_eta. reflexivity.
   Qed.
 
+  (* ---------------- the offset seeding (fix 6298cba) writes values only ---------------- *)
+  Notation seed_comp := (seed_comp num zero).
+  Notation seed_subs := (seed_subs num zero).
+  Notation seeded := (seeded num zero).
+  Notation linker_seed := (linker_seed num zero).
+
+  Lemma seed_subs_F2 p q : forall ids subs, Forall2 prel subs (seed_subs ids p q subs).
+  Proof.
+    induction ids as [|id r IH]; intros subs; cbn [Linker.seed_subs]; [apply F2_refl|].
+    destruct (find_sub id subs) as [c|] eqn:Ef; [|apply IH].
+    eapply F2_trans; [|apply IH]. eapply F2_put_sub; eauto. apply crel_with_cvals.
+  Qed.
+  Lemma seeded_srel ids' ids p q s : srel ids' s (seeded ids p q s).
+  Proof. split; [apply crel_with_cvals|]. split; [apply seed_subs_F2|apply log_ext_eq; reflexivity]. Qed.
+
+  (* a successful seeding either changed nothing (offset = 0, or nothing to write) or produced `seeded` *)
+  Lemma linker_seed_spec ids o t s s0 :
+    linker_seed ids o t s = (s0, None) -> s0 = s \/ exists p q, s0 = seeded ids p q s.
+  Proof.
+    unfold Linker.linker_seed. destruct (offset o =? 0); [intros H; inversion H; left; reflexivity|].
+    destruct (_ || _); [discriminate|]. destruct (existsb _ ids); [discriminate|].
+    destruct (py_pos _ t) as [p|].
+    - intros H; inversion H. right. eauto.
+    - destruct (has_endo num ids s); [discriminate|]. intros H; inversion H; left; reflexivity.
+  Qed.
+  (* a failed seeding leaves the state alone *)
+  Lemma linker_seed_error ids o t s s' e : linker_seed ids o t s = (s', Some e) -> s' = s /\ (e = IndexError \/ e = KeyError).
+  Proof.
+    unfold Linker.linker_seed. destruct (offset o =? 0); [discriminate|].
+    destruct (_ || _); [intros H; inversion H; auto|]. destruct (existsb _ ids); [intros H; inversion H; auto|].
+    destruct (py_pos _ t) as [p|]; [discriminate|]. destruct (has_endo num ids s); [intros H; inversion H; auto|discriminate].
+  Qed.
+  Lemma linker_seed_srel ids' ids o t s s0 : linker_seed ids o t s = (s0, None) -> srel ids' s s0.
+  Proof. intros H. destruct (linker_seed_spec _ _ _ _ _ H) as [->|(p & q & ->)]; [apply srel_refl|apply seeded_srel]. Qed.
+  Lemma linker_seed_sel_ids sel ids o t s s0 : linker_seed ids o t s = (s0, None) -> sel_ids num sel s0 = sel_ids num sel s.
+  Proof.
+    intros H. destruct sel; [reflexivity|]. cbn [Linker.sel_ids]. symmetry. apply F2_keys.
+    apply (linker_seed_srel [] ids o t s s0 H).
+  Qed.
+
+  Lemma seed_subs_unselected p q i id c : forall ids subs,
+    nth_error subs i = Some (id, c) -> selected ids id = false -> nth_error (seed_subs ids p q subs) i = Some (id, c).
+  Proof.
+    induction ids as [|a r IH]; intros subs Hn Hs; cbn [Linker.seed_subs]; [exact Hn|].
+    apply selected_cons_false in Hs as [Hne Hs].
+    destruct (find_sub a subs) as [x|]; [|apply IH; assumption].
+    apply IH; [|exact Hs]. apply nth_put_sub_other; [exact Hn|exact Hne].
+  Qed.
+  (* an unselected submodel is not seeded: its entry is literally the same *)
+  Lemma linker_seed_unselected ids o t s s0 i id c :
+    linker_seed ids o t s = (s0, None) -> nth_error (l_subs s) i = Some (id, c) -> selected ids id = false ->
+    nth_error (l_subs s0) i = Some (id, c).
+  Proof.
+    intros H Hn Hs. destruct (linker_seed_spec _ _ _ _ _ H) as [->|(p & q & ->)]; [exact Hn|].
+    cbn [Linker.seeded l_subs]. apply seed_subs_unselected; assumption.
+  Qed.
+
   (* ---------------- unknown identifier ---------------- *)
   (* the counters zeroed before the KeyError: exactly those of the identifiers listed before the unknown one *)
   Lemma zero_iters_app t : forall a b subs,
